@@ -78,7 +78,9 @@ def part_descs(draw, ndim, min_entries=2):
     return [list(x) for x in desc[:12]]
 
 
-SINK_CODE_UNITS = ["1", "m", "l", "t", "l t**-1", "m l**-3", "m l**2 t**-2", "m t**-1", "l**2 t**-1"]
+SINK_CODE_UNITS = ["1", "m", "l", "t", "l t**-1", "m l**-3", "m l**2 t**-2", "m t**-1", "l**2 t**-1",
+                   # general expressions in m, l, t (a blank multiplies): quotients, parentheses, non-integer powers
+                   "l/t", "m/l**3", "t**(-1)", "l**0.5", "m l**2/t**2", "(m/l**3) l"]
 SINK_LEGACY_UNITS = ["[1]", "[g]", "[cm]", "[km/s]", "[yr]", "[M_sun]", "[au]", "[cm/s]", "[m]", "[m/s]", "[kg]"]
 LEGACY_MODEL = {"[1]": "dimensionless", "[g]": "g", "[cm]": "cm", "[km/s]": "km/s", "[yr]": "yr", "[M_sun]": "M_sun",
                 "[au]": "au", "[cm/s]": "cm/s", "[m]": "m", "[m/s]": "m/s", "[kg]": "kg"}      # [m] is the metre, not the code mass
